@@ -10,6 +10,7 @@ import (
 	"os/exec"
 	"path/filepath"
 	"runtime"
+	"runtime/debug"
 	"sort"
 	"strings"
 	"sync"
@@ -73,6 +74,7 @@ type resultMsg struct {
 // WorkerMain is the entry point of a worker process.
 func WorkerMain(chk *Check, thorough bool, scratch string, wid int, deadline time.Time) {
 	runtime.GOMAXPROCS(2)
+	debug.SetGCPercent(400)
 	out := os.NewFile(3, "results")
 	if out == nil {
 		fmt.Fprintln(os.Stderr, "worker: fd 3 missing")
